@@ -27,6 +27,18 @@ def run(rep, tier):
         c12.check_first_in_path(rep_, prog)
         search.check_relaxation(rep_, prog)
         search.check_pruning(rep_, prog)
+        from . import c07, c14
+        c07.r07k(rep_, prog)
+        search.check_combine_types(rep_, prog)
+        # root weight of the shortest-path trees (candidate sort keys): shared with C14
+        sub14 = type(rep_)(rep_.prop, rep_.tier)
+        c14.check_program(sub14, prog)
+        for i in sub14.instances.values():
+            if i.rule == 'R14d':
+                rep_.add(i.rule, i.site, i.function, i.what, i.status, i.detail, key=i.key)
+    rep.rule('R02j', 'the saturating sum of the searches is applied in the distance type (no floating -> integral truncation of weights)', floor=4)
+    rep.rule('R07k', 'numeric_limits<T>::infinity() only for floating-point T (0 for integral weight types)', floor=0)
+    rep.rule('R14d', 'the root node of a shortest-path tree has weight zero (candidate weights are the sort keys of the first-found lookup)', floor=0)
     c01.run_rules(rep, tier, RULES, c01.DOCS, extra=extra)
     rep.rule('R02h', 'relaxation contract of every label-setting search', floor=4)
     rep.rule('R02i', 'pruning / stopping / best-update conditions of the bidirectional search are sound', floor=5)
